@@ -7,7 +7,7 @@
          entry's own trailing dims). *)
 From Coq Require Import ZArith List Bool Lia ZifyBool String.
 Import ListNotations.
-From TD Require Import Spec.PySlice Spec.C02_TorchShape Model.C02_ShapeOps Proofs.C02_FrameP.
+From TD Require Import Spec.PySlice Spec.C02_TorchShape Model.C02_ShapeOps Proofs.C02_FrameP Proofs.C02_InferP.
 Open Scope Z_scope.
 Ltac Zify.zify_post_hook ::= Z.to_euclidean_division_equations.
 
@@ -121,6 +121,8 @@ Proof. intros H. unfold swap_nth. apply nonneg_set; [apply nonneg_nth; exact H|]
 (* ------------------------------------------------------------------ the class *)
 Definition is_perm (p : list nat) : Prop := nodupb p = true /\ Forall (fun i => (i < List.length p)%nat) p.
 
+Definition no1 (bs : list Z) : list Z := filter (fun x => negb (x =? 1)) bs.
+
 Definition flat (bs : list Z) (i j : nat) : list Z :=
   firstn i bs ++ prodZ (firstn (S j - i) (skipn i bs)) :: skipn (S j) bs.
 
@@ -136,26 +138,29 @@ Inductive K : sop -> list Z -> list Z -> list Z -> Prop :=
     K (OTranspose (Z.of_nat i) (Z.of_nat j)) bs (swap_nth bs i j) tl
 | Kt_squeeze d bs bs' : bs <> [] -> t_squeeze_dim bs d = Ok bs' -> K (OSqueeze (Some d)) bs bs' []
 | Kn_squeeze i bs tl : (i < List.length bs)%nat -> nthZ bs i = 1 -> K (OSqueeze (Some (Z.of_nat i))) bs (remove_nth i bs) tl
-| Kt_squeeze_all bs bs' : t_squeeze_all bs = Ok bs' -> bs' <> [] -> K (OSqueeze None) bs bs' []
-| Kn_viewstar bs bs' tl : prodZ bs = prodZ bs' -> nonneg bs' -> bs' ++ tl <> [] -> K (OViewStar (bs' ++ tl)) bs bs' tl
+| Kt_squeeze_all bs bs' : t_squeeze_all bs = Ok bs' -> K (OSqueeze None) bs bs' []
+| Kn_sqchild bs tl :
+    K (OSqueezeAllChild (no1 bs) (List.length bs) (singletons_desc bs)) bs (no1 bs) tl
+| Kn_sqdims bs mid tl :
+    K (OSqueezeDims (singletons_desc bs)) (bs ++ mid) (no1 bs ++ mid) tl
 | Kt_unsqueeze d bs bs' : t_unsqueeze bs d = Ok bs' -> K (OUnsqueeze d) bs bs' []
 | Kn_unsqueeze i bs tl : (i <= List.length bs)%nat -> K (OUnsqueeze (Z.of_nat i)) bs (insert_nth i 1 bs) tl
-| Kt_expand shape bs bs' : t_expand bs shape = Ok bs' -> nonneg shape -> K (OExpand shape) bs bs' []
+| Kt_expand shape bs bs' : t_expand bs shape = Ok bs' -> K (OExpand shape) bs bs' []
 | Kn_expand bs bs' tl : expand_ok bs bs' -> K (OExpand (bs' ++ tl)) bs bs' tl
-| Kt_view shape bs bs' : t_view bs shape = Ok bs' -> nonneg shape -> K (OView shape) bs bs' []
+| Kt_view shape bs bs' : t_view bs shape = Ok bs' -> K (OView shape) bs bs' []
 | Kn_view bs bs' tl : prodZ bs = prodZ bs' -> nonneg bs' -> K (OView (bs' ++ tl)) bs bs' tl
-| Kt_reshape shape bs bs' : t_reshape bs shape = Ok bs' -> nonneg shape -> K (OReshape shape) bs bs' []
+| Kt_reshape shape bs bs' : t_reshape bs shape = Ok bs' -> K (OReshape shape) bs bs' []
 | Kn_reshape bs bs' tl : prodZ bs = prodZ bs' -> nonneg bs' -> K (OReshape (bs' ++ tl)) bs bs' tl
 | Kt_flatten a b bs bs' i j : bs <> [] -> wrap_dim a (List.length bs) = Ok i -> wrap_dim b (List.length bs) = Ok j ->
     (i < j)%nat -> bs' = flat bs i j -> K (OFlatten a b) bs bs' []
 | Kn_flatten i j bs tl : (i < j)%nat -> (j < List.length bs)%nat ->
     K (OFlatten (Z.of_nat i) (Z.of_nat j)) bs (flat bs i j) tl
-| Kt_unflatten d sizes bs bs' : t_unflatten bs d sizes = Ok bs' -> nonneg sizes -> K (OUnflatten d sizes) bs bs' []
+| Kt_unflatten d sizes bs bs' : t_unflatten bs d sizes = Ok bs' -> K (OUnflatten d sizes) bs bs' []
 | Kn_unflatten i sizes bs tl : (i < List.length bs)%nat -> sizes <> [] -> nonneg sizes -> prodZ sizes = nthZ bs i ->
     K (OUnflatten (Z.of_nat i) sizes) bs (firstn i bs ++ sizes ++ skipn (S i) bs) tl
-| Kt_repeat reps bs bs' : t_repeat bs reps = Ok bs' -> List.length reps = List.length bs -> bs <> [] ->
+| Kt_repeat reps bs bs' : t_repeat bs reps = Ok bs' -> List.length reps = List.length bs ->
     K (ORepeat reps) bs bs' []
-| Kn_repeat reps bs tl : List.length reps = List.length bs -> bs <> [] -> nonneg (map2_mul bs reps) ->
+| Kn_repeat reps bs tl : List.length reps = List.length bs -> nonneg (map2_mul bs reps) ->
     K (ORepeat (reps ++ repeat 1 (List.length tl))) bs (map2_mul bs reps) tl
 | Kt_repint r d bs bs' : bs <> [] -> t_repeat_interleave bs r (Some d) = Ok bs' -> K (ORepInt r d) bs bs' []
 | Kn_repint r i bs tl : 0 <= r -> (i < List.length bs)%nat ->
@@ -356,6 +361,16 @@ Qed.
 Lemma existsb_same tl : existsb (fun p : Z * Z => negb (fst p =? 1) && negb (snd p =? fst p)) (combine tl tl) = false.
 Proof. induction tl as [|x tl IH]; cbn; [reflexivity|]. rewrite IH, Z.eqb_refl. cbn. rewrite andb_false_r. reflexivity. Qed.
 
+Lemma resolve_id (bs tail : list Z) : nonneg tail ->
+  map (fun p : Z * Z => if snd p =? -1 then fst p else snd p) (combine bs tail) = map snd (combine bs tail).
+Proof.
+  intros Hn. apply map_ext_in. intros [o t] Hin. cbn [fst snd]. apply in_combine_r in Hin.
+  unfold nonneg in Hn. rewrite Forall_forall in Hn. specialize (Hn _ Hin). destruct (t =? -1) eqn:E; [lia|reflexivity].
+Qed.
+
+Lemma map_snd_combine {A B} (a : list A) (b : list B) : List.length a = List.length b -> map snd (combine a b) = b.
+Proof. revert b. induction a as [|x a IH]; intros [|y b] H; cbn in *; try discriminate; [reflexivity|]. f_equal. apply IH. lia. Qed.
+
 Lemma node_expand_ok bs bs' nm : expand_ok bs bs' ->
   exists nm', node_step (OExpand bs') bs nm =
     Done (SStep bs' nm' (fun csh => let k := (List.length csh - List.length bs)%nat in
@@ -365,6 +380,9 @@ Proof.
   intros [Hn H]. apply t_expand_inv in H. destruct H as [Hl [r0 [He _]]].
   apply expand_tail_nonneg in He; [|apply nonneg_skipn; exact Hn]. destruct He as [_ [_ He]].
   cbn [node_step]. destruct (List.length bs' <? List.length bs)%nat eqn:E; [apply Nat.ltb_lt in E; lia|].
+  change fixed_C02f with true. cbv iota.
+  rewrite resolve_id by (apply nonneg_skipn; exact Hn).
+  rewrite map_snd_combine by (rewrite skipn_length; lia). rewrite firstn_skipn.
   rewrite He. eexists. split; [reflexivity|]. intros Hw. destruct nm as [l|]; cbn [has_names names_wf]; [|exact I].
   cbn [names_list]. cbn in Hw. rewrite app_length, repeat_length. lia.
 Qed.
@@ -377,6 +395,51 @@ Proof.
     with (List.length tl2) by lia.
   destruct tl2 as [|x tl2]; [cbn; rewrite app_nil_r; reflexivity|].
   cbn [List.length]. rewrite <- (lastn_app base (x :: tl2)) at 2. reflexivity.
+Qed.
+
+Lemma expand_tail_resolve old tgt r : nonneg old -> expand_tail old tgt = Ok r ->
+  map (fun p : Z * Z => if snd p =? -1 then fst p else snd p) (combine old tgt) = r /\ nonneg r /\ expand_tail old r = Ok r.
+Proof.
+  revert tgt r. induction old as [|o old IH]; intros [|t tgt] r Hn H; cbn [expand_tail] in H; try discriminate.
+  - injection H as <-. cbn. repeat split; constructor.
+  - apply nonneg_cons in Hn. destruct Hn as [Ho Hn].
+    destruct (expand_tail old tgt) as [r0|] eqn:E; [|discriminate]. cbn [bind] in H.
+    destruct (IH _ _ Hn E) as [Hm [Hnr Hi]]. cbn [combine map fst snd expand_tail]. rewrite Hm.
+    destruct (t =? -1) eqn:E1.
+    + injection H as <-. split; [reflexivity|]. split; [apply nonneg_cons; tauto|]. rewrite Hi. cbn [bind].
+      destruct (o =? -1) eqn:E2; [reflexivity|]. rewrite Z.eqb_refl. reflexivity.
+    + destruct (t =? o) eqn:E2.
+      * injection H as <-. apply Z.eqb_eq in E2. subst t. split; [reflexivity|]. split; [apply nonneg_cons; tauto|].
+        rewrite Hi. cbn [bind]. rewrite E1, Z.eqb_refl. reflexivity.
+      * destruct ((o =? 1) && (0 <=? t)) eqn:E3; [|discriminate]. injection H as <-.
+        apply andb_true_iff in E3. destruct E3 as [E3 E4]. split; [reflexivity|]. split; [apply nonneg_cons; split; [lia|exact Hnr]|].
+        rewrite Hi. cbn [bind]. rewrite E1, E2, E3, E4. reflexivity.
+Qed.
+
+(* a legal expand: tensordict resolves the target to torch's result shape, and from there behaves as for that shape *)
+Lemma t_expand_result bs shape bs' : t_expand bs shape = Ok bs' -> nonneg bs ->
+  expand_ok bs bs' /\ forall nm, node_step (OExpand shape) bs nm = node_step (OExpand bs') bs nm.
+Proof.
+  intros H Hn. apply t_expand_inv in H. destruct H as [Hl [r0 [He [-> Hlead]]]].
+  destruct (expand_tail_resolve _ _ _ Hn He) as [Hm [Hnr Hi]].
+  assert (Hlr : List.length r0 = List.length bs).
+  { apply expand_tail_nonneg in Hi; [|exact Hnr]. destruct Hi as [_ [Hl2 _]]. lia. }
+  set (k := (List.length shape - List.length bs)%nat) in *.
+  assert (Hlk : List.length (firstn k shape) = k) by (rewrite firstn_length; lia).
+  assert (Hlen : List.length (firstn k shape ++ r0) = List.length shape) by (rewrite app_length, Hlk, Hlr; lia).
+  assert (Hfk : firstn k (firstn k shape ++ r0) = firstn k shape).
+  { rewrite firstn_app_l by lia. rewrite firstn_firstn, Nat.min_id. reflexivity. }
+  assert (Hsk : skipn k (firstn k shape ++ r0) = r0).
+  { rewrite skipn_app_l by lia. rewrite (skipn_all2 (firstn k shape)) by (rewrite Hlk; lia). reflexivity. }
+  split.
+  - split; [apply nonneg_app; split; assumption|]. unfold t_expand. rewrite Hlen.
+    destruct (List.length shape <? List.length bs)%nat eqn:E; [apply Nat.ltb_lt in E; lia|]. fold k.
+    rewrite !Hfk, !Hsk.
+    assert (Hf : forallb (fun x => 0 <=? x) (firstn k shape) = true) by (apply forallb_nonneg; exact Hlead).
+    rewrite Hf, Hi. reflexivity.
+  - intros nm. cbn [node_step]. rewrite Hlen. fold k. change fixed_C02f with true. cbv iota.
+    rewrite Hm. rewrite !Hfk, !Hsk.
+    rewrite (resolve_id bs r0 Hnr), map_snd_combine by lia. rewrite !Hsk. reflexivity.
 Qed.
 
 (* ------------------------------------------------------------------ view / reshape / squeeze() *)
@@ -442,6 +505,52 @@ Qed.
 
 Lemma nonneg_filter f l : nonneg l -> nonneg (filter f l).
 Proof. unfold nonneg. rewrite !Forall_forall. intros H x Hx. apply filter_In in Hx. apply H. tauto. Qed.
+
+(* the target of a legal view / reshape as tensordict computes it: torch's result *)
+Lemma view_target bs shape bs' : nonneg bs -> t_view bs shape = Ok bs' ->
+  (if existsb (fun x => x <? 0) shape then infer_size_impl shape (td_numel bs) else Done shape) = Done bs'
+  /\ nonneg bs' /\ prodZ bs = prodZ bs'.
+Proof.
+  intros Hn Ht. unfold t_view, numel in Ht.
+  destruct (infer_size_ok shape (prodZ bs) bs' (prodZ_nonneg bs Hn) Ht) as [H1 [H2 _]].
+  split; [|split; [exact H1|lia]].
+  destruct (existsb (fun x => x <? 0) shape) eqn:E.
+  - change (td_numel bs) with (prodZ bs). rewrite infer_equiv, Ht. reflexivity.
+  - assert (Hns : nonneg shape).
+    { unfold nonneg. rewrite Forall_forall. intros x Hx. destruct (x <? 0) eqn:Ex; [|lia].
+      assert (existsb (fun y => y <? 0) shape = true) by (apply existsb_exists; exists x; tauto). congruence. }
+    rewrite infer_size_nonneg in Ht by exact Hns. destruct (prodZ shape =? prodZ bs); [|discriminate]. injection Ht as <-. reflexivity.
+Qed.
+
+Lemma node_view_any (mk mk' : list Z -> sop) shape bs bs' nm :
+  (forall s b n, node_step (mk s) b n =
+     let* sh := (if existsb (fun x => x <? 0) s then infer_size_impl s (td_numel b) else Done s) in
+     if list_eqb sh b then Done SSelf else Done (SStep sh None (fun csh => mk' (sh ++ skipn (List.length b) csh)))) ->
+  nonneg bs -> t_view bs shape = Ok bs' ->
+  (node_step (mk shape) bs nm = Done SSelf /\ bs' = bs) \/
+  (node_step (mk shape) bs nm = Done (SStep bs' None (fun csh => mk' (bs' ++ skipn (List.length bs) csh)))).
+Proof.
+  intros Hdef Hn Ht. rewrite Hdef. destruct (view_target bs shape bs' Hn Ht) as [-> _]. cbn [bindo].
+  destruct (list_eqb bs' bs) eqn:E; [left; split; [reflexivity|apply list_eqb_eq; exact E]|right; reflexivity].
+Qed.
+
+Lemma unflatten_norm_any bs d sizes bs' : nonneg bs -> t_unflatten bs d sizes = Ok bs' ->
+  exists i sz, wrap_dim d (List.length bs) = Ok i /\ sz <> [] /\ nonneg sz /\ prodZ sz = nthZ bs i /\
+               bs' = firstn i bs ++ sz ++ skipn (S i) bs /\
+               (if existsb (fun x => x <? 0) sizes then infer_size_impl sizes (nthZ bs i) else Done sizes) = Done sz.
+Proof.
+  intros Hn. unfold t_unflatten. destruct (wrap_dim d _) as [i|] eqn:E; [|discriminate]. cbn [bind].
+  destruct sizes as [|s0 sizes]; [discriminate|].
+  destruct (infer_size (s0 :: sizes) (nthZ bs i)) as [sz|] eqn:Ei; [|discriminate]. cbn [bind]. intros H. injection H as <-.
+  destruct (infer_size_ok _ _ _ (nonneg_nth bs i Hn) Ei) as [H1 [H2 H3]].
+  exists i, sz. split; [reflexivity|]. split; [destruct sz; [discriminate|discriminate]|]. split; [exact H1|]. split; [exact H2|]. split; [reflexivity|].
+  destruct (existsb (fun x => x <? 0) (s0 :: sizes)) eqn:Ee.
+  - rewrite infer_equiv, Ei. reflexivity.
+  - assert (Hns : nonneg (s0 :: sizes)).
+    { unfold nonneg. rewrite Forall_forall. intros x Hx. destruct (x <? 0) eqn:Ex; [|lia].
+      assert (existsb (fun y => y <? 0) (s0 :: sizes) = true) by (apply existsb_exists; exists x; tauto). congruence. }
+    rewrite infer_size_nonneg in Ei by exact Hns. destruct (prodZ (s0 :: sizes) =? nthZ bs i); [|discriminate]. injection Ei as <-. reflexivity.
+Qed.
 
 (* ------------------------------------------------------------------ flatten / unflatten *)
 Lemma py_slice_in {A} (l : list A) a b : (a <= b)%nat -> (b <= List.length l)%nat ->
@@ -521,8 +630,11 @@ Lemma node_flatten_nat i j bs nm : (i < j)%nat -> (j < List.length bs)%nat ->
               Done (SStep (flat bs i j) nm' (fun _ => OFlatten (Z.of_nat i) (Z.of_nat j)))
               /\ (names_wf nm bs -> names_wf nm' (flat bs i j)).
 Proof.
-  intros Hi Hj. cbn [node_step]. destruct (Z.of_nat i <? 0) eqn:E1; [lia|]. destruct (Z.of_nat j <? 0) eqn:E2; [lia|].
-  cbn [andb]. destruct (Z.of_nat j <=? Z.of_nat i) eqn:E3; [lia|].
+  intros Hi Hj. cbn [node_step]. change fixed_S5 with true. cbn [andb].
+  destruct (Z.of_nat i <? 0) eqn:E1; [lia|]. destruct (Z.of_nat j <? 0) eqn:E2; [lia|]. cbv iota. rewrite ?E1, ?E2.
+  destruct (Z.of_nat (List.length bs) <=? Z.of_nat i) eqn:E01; [lia|].
+  destruct (Z.of_nat (List.length bs) <=? Z.of_nat j) eqn:E02; [lia|].
+  cbn [andb orb]. destruct (Z.of_nat j <=? Z.of_nat i) eqn:E3; [lia|].
   replace (Z.of_nat j + 1) with (Z.of_nat (S j)) by lia.
   rewrite py_slice_in, py_from_in, py_upto_in by lia.
   assert (Hbs : (if 0 <? Z.of_nat i then firstn i bs ++ prodZ (firstn (S j - i) (skipn i bs)) :: skipn (S j) bs
@@ -555,12 +667,13 @@ Proof.
   rewrite insert_nth_length by lia. lia.
 Qed.
 
-Lemma node_unflatten_nat i sizes bs nm : (i < List.length bs)%nat -> sizes <> [] ->
+Lemma node_unflatten_nat i sizes bs nm : (i < List.length bs)%nat -> sizes <> [] -> nonneg sizes ->
   exists nm', node_step (OUnflatten (Z.of_nat i) sizes) bs nm =
               Done (SStep (firstn i bs ++ sizes ++ skipn (S i) bs) nm' (fun _ => OUnflatten (Z.of_nat i) sizes))
               /\ (names_wf nm bs -> names_wf nm' (firstn i bs ++ sizes ++ skipn (S i) bs)).
 Proof.
-  intros Hi Hne. cbn [node_step]. rewrite correct_neg_dim_nat by lia. cbn [bindo].
+  intros Hi Hne Hnns. cbn [node_step]. rewrite correct_neg_dim_nat by lia. cbn [bindo].
+  rewrite existsb_neg_nonneg by exact Hnns. rewrite andb_false_r. cbn [bindo].
   assert (Hbs : (if (0 <? i)%nat then firstn i bs ++ sizes ++ skipn (S i) bs else sizes ++ skipn 1 bs)
                 = firstn i bs ++ sizes ++ skipn (S i) bs).
   { destruct (0 <? i)%nat eqn:E; [reflexivity|]. apply Nat.ltb_ge in E. assert (i = 0)%nat by lia. subst. reflexivity. }
@@ -608,13 +721,13 @@ Proof.
   destruct (forallb _ _) eqn:E; [|discriminate]. injection H as <-. split; [reflexivity|]. apply forallb_nonneg. exact E.
 Qed.
 
-Lemma Kleaf_n_repeat reps bs tl : List.length reps = List.length bs -> bs <> [] -> nonneg (map2_mul bs reps) -> nonneg tl ->
+Lemma leaf_repeat_any R sh : leaf_op (ORepeat R) sh = lift ERuntime (t_repeat sh R).
+Proof. destruct R; reflexivity. Qed.
+
+Lemma Kleaf_n_repeat reps bs tl : List.length reps = List.length bs -> nonneg (map2_mul bs reps) -> nonneg tl ->
   leaf_op (ORepeat (reps ++ repeat 1 (List.length tl))) (bs ++ tl) = Done (map2_mul bs reps ++ tl).
 Proof.
-  intros Hl Hne Hn Hnt. cbn [leaf_op].
-  destruct (reps ++ repeat 1 (List.length tl)) eqn:E.
-  { destruct reps; [destruct bs; [congruence|discriminate]|discriminate]. }
-  rewrite <- E. unfold t_repeat. rewrite !app_length, repeat_length, Hl, Nat.ltb_irrefl, Nat.sub_diag. cbn [repeat app].
+  intros Hl Hn Hnt. rewrite leaf_repeat_any. unfold t_repeat. rewrite !app_length, repeat_length, Hl, Nat.ltb_irrefl, Nat.sub_diag. cbn [repeat app].
   rewrite map2_mul_app by lia. rewrite map2_mul_ones.
   assert (Hf : forallb (fun x => 0 <=? x) (map2_mul bs reps ++ tl) = true) by (apply forallb_nonneg, nonneg_app; tauto).
   rewrite Hf. reflexivity.
@@ -651,6 +764,7 @@ Lemma node_repint_nat r i bs nm : (i < List.length bs)%nat ->
 Proof.
   intros Hi. cbn [node_step]. destruct bs as [|b0 bs]; [cbn in Hi; lia|].
   destruct (0 <=? Z.of_nat i) eqn:E; [|lia]. destruct (Z.of_nat i <? 0) eqn:E2; [lia|]. cbn [andb].
+  destruct (Z.of_nat (List.length (b0 :: bs)) <=? Z.of_nat i) eqn:E4; [lia|]. rewrite andb_false_r.
   rewrite set_nth_map_seq. cbn [Nat.leb]. rewrite Nat.sub_0_r.
   destruct (i <? 0 + List.length (b0 :: bs))%nat eqn:E3; [reflexivity|]. apply Nat.ltb_ge in E3. lia.
 Qed.
@@ -808,7 +922,8 @@ Proof.
   destruct (is_identity (map Z.of_nat q)) eqn:E.
   - left. split; [reflexivity|]. apply is_identity_seq in E. rewrite E, Hl. apply map_nth_seq0.
   - right. rewrite map_length, Hl, skipn_all, app_nil_r. eexists. split; [reflexivity|].
-    intros Hw. destruct nm as [l|]; cbn [has_names names_wf]; [|exact I]. rewrite !map_length. reflexivity.
+    intros Hw. destruct nm as [l|]; cbn [has_names names_wf]; [|exact I]. change fixed_C02k with true. cbv iota.
+    cbn [names_list]. cbn in Hw. rewrite app_length, !map_length, skipn_length. lia.
 Qed.
 
 Lemma node_permute_raw dims bs nm p : mapM (fun d => wrap_dim d (List.length bs)) dims = Ok p ->
@@ -825,6 +940,121 @@ Proof.
   destruct (mapM _ dims) as [p|] eqn:E2; [|discriminate]. cbn [bind]. destruct (nodupb p) eqn:E3; [|discriminate].
   intros H. injection H as <-. exists p. apply Nat.eqb_eq in E. destruct (mapM_wrap_norm _ _ _ E2) as [_ [Hf Hl]].
   split; [reflexivity|]. split; [split; [exact E3|rewrite Hl, E; exact Hf]|]. split; [lia|reflexivity].
+Qed.
+
+(* ------------------------------------------------------------------ squeeze(): entries viewed, nested nodes squeezed dim by dim *)
+Definition pos1 (k : nat) (l : list Z) : list nat :=
+  map fst (filter (fun p => snd p =? 1) (combine (seq k (List.length l)) l)).
+
+Lemma singletons_desc_pos1 bs : singletons_desc bs = rev (pos1 0 bs).
+Proof. reflexivity. Qed.
+
+Lemma pos1_cons k x l : pos1 k (x :: l) = (if x =? 1 then [k] else []) ++ pos1 (S k) l.
+Proof. unfold pos1. cbn [List.length seq combine filter snd]. destruct (x =? 1); reflexivity. Qed.
+
+Definition leaf_chain (ds : list nat) (sh : list Z) : out (list Z) :=
+  (fix go (l : list nat) (cur : list Z) : out (list Z) :=
+     match l with
+     | [] => Done cur
+     | i :: r => let* nxt := lift EIndex (t_squeeze_dim cur (Z.of_nat i)) in go r nxt
+     end) ds sh.
+
+Lemma leaf_chain_app a b sh : leaf_chain (a ++ b) sh = let* c := leaf_chain a sh in leaf_chain b c.
+Proof.
+  revert sh. induction a as [|i a IH]; intros sh; [reflexivity|]. cbn [app leaf_chain].
+  destruct (lift EIndex (t_squeeze_dim sh (Z.of_nat i))) as [nxt| | |]; cbn [bindo]; try reflexivity. apply IH.
+Qed.
+
+Lemma t_squeeze_dim_one pre x rest : x = 1 ->
+  t_squeeze_dim (pre ++ x :: rest) (Z.of_nat (List.length pre)) = Ok (pre ++ rest).
+Proof.
+  intros ->. unfold t_squeeze_dim. rewrite wrap_dim_scalar_pos by (rewrite app_length; cbn; lia).
+  rewrite wrap_dim_nat by (rewrite app_length; cbn; lia). cbn [bind].
+  destruct (pre ++ 1 :: rest) eqn:E; [destruct pre; discriminate|]. rewrite <- E.
+  rewrite nthZ_app_r by lia. rewrite Nat.sub_diag. cbn [nthZ nth]. cbn.
+  unfold remove_nth. rewrite firstn_app, firstn_all, Nat.sub_diag. cbn [firstn]. rewrite app_nil_r.
+  rewrite skipn_app. rewrite skipn_all2 by lia. replace (S (List.length pre) - List.length pre)%nat with 1%nat by lia. reflexivity.
+Qed.
+
+(* the leaf chain over the singleton positions of l (offset = length pre) removes exactly the 1s of l *)
+Lemma leaf_chain_pos1 l : forall pre tl,
+  leaf_chain (rev (pos1 (List.length pre) l)) (pre ++ l ++ tl) = Done (pre ++ no1 l ++ tl).
+Proof.
+  induction l as [|x l IH]; intros pre tl; [reflexivity|].
+  rewrite pos1_cons, rev_app_distr, leaf_chain_app.
+  replace (pre ++ (x :: l) ++ tl) with ((pre ++ [x]) ++ l ++ tl) by (rewrite <- app_assoc; reflexivity).
+  replace (S (List.length pre)) with (List.length (pre ++ [x])) by (rewrite app_length; cbn; lia).
+  rewrite IH. cbn [bindo]. unfold no1. cbn [filter]. destruct (x =? 1) eqn:E; cbn [negb rev app leaf_chain].
+  - rewrite <- app_assoc. cbn [app]. rewrite t_squeeze_dim_one by lia. reflexivity.
+  - rewrite <- app_assoc. reflexivity.
+Qed.
+
+Lemma squeeze_chain_app a b bs nl done :
+  squeeze_chain (a ++ b) bs nl done =
+  let* r := squeeze_chain a bs nl done in let '(bs1, nl1, sq) := r in squeeze_chain b bs1 nl1 (rev sq).
+Proof.
+  revert bs nl done. induction a as [|i a IH]; intros bs nl done.
+  - cbn [app squeeze_chain bindo]. rewrite rev_involutive. reflexivity.
+  - cbn [app squeeze_chain]. destruct (List.length bs <=? i)%nat; [reflexivity|].
+    destruct (nthZ bs i =? 1); apply IH.
+Qed.
+
+Lemma remove_nth_mid {A} (pre : list A) x rest : remove_nth (List.length pre) (pre ++ x :: rest) = pre ++ rest.
+Proof.
+  unfold remove_nth. rewrite firstn_app, firstn_all, Nat.sub_diag. cbn [firstn]. rewrite app_nil_r.
+  rewrite skipn_app. rewrite skipn_all2 by lia. replace (S (List.length pre) - List.length pre)%nat with 1%nat by lia. reflexivity.
+Qed.
+
+(* the node chain: same sizes; the names shrink with the sizes; every listed position is squeezed *)
+Lemma squeeze_chain_pos1 l : forall pre tl nl done, List.length nl = List.length (pre ++ l ++ tl) ->
+  exists nl', squeeze_chain (rev (pos1 (List.length pre) l)) (pre ++ l ++ tl) nl done
+              = Done (pre ++ no1 l ++ tl, nl', rev done ++ rev (pos1 (List.length pre) l))
+              /\ List.length nl' = List.length (pre ++ no1 l ++ tl).
+Proof.
+  induction l as [|x l IH]; intros pre tl nl done Hl.
+  - exists nl. cbn [pos1 List.length seq combine filter map rev squeeze_chain]. rewrite app_nil_r. split; [reflexivity|exact Hl].
+  - rewrite pos1_cons, rev_app_distr, squeeze_chain_app.
+    replace (pre ++ (x :: l) ++ tl) with ((pre ++ [x]) ++ l ++ tl) in * by (rewrite <- app_assoc; reflexivity).
+    replace (S (List.length pre)) with (List.length (pre ++ [x])) by (rewrite app_length; cbn; lia).
+    destruct (IH (pre ++ [x]) tl nl done Hl) as [nl1 [H1 Hl1]]. rewrite H1. cbn [bindo].
+    rewrite rev_app_distr, rev_involutive. unfold no1 in *. cbn [filter]. destruct (x =? 1) eqn:E; cbn [negb rev app squeeze_chain].
+    + rewrite <- !app_assoc in *. cbn [app] in *.
+      assert (Hlen : Nat.leb (List.length (pre ++ x :: filter (fun x0 => negb (x0 =? 1)) l ++ tl)) (List.length pre) = false)
+        by (apply Nat.leb_gt; rewrite app_length; cbn; lia).
+      rewrite Hlen. rewrite nthZ_app_r by lia. rewrite Nat.sub_diag. cbn [nthZ nth]. rewrite E.
+      rewrite remove_nth_mid. cbn [squeeze_chain rev app]. eexists. split.
+      * rewrite rev_app_distr, rev_involutive. cbn [rev app]. rewrite <- app_assoc. reflexivity.
+      * rewrite remove_nth_length by (rewrite Hl1, app_length; cbn; lia). rewrite Hl1, !app_length. cbn [List.length]. rewrite !app_length. lia.
+    + rewrite <- !app_assoc in *. cbn [app] in *. exists nl1. split; [|exact Hl1].
+      rewrite rev_app_distr, rev_involutive, app_nil_r. reflexivity.
+Qed.
+
+Lemma no1_nonneg bs : nonneg bs -> nonneg (no1 bs).
+Proof. apply nonneg_filter. Qed.
+
+Lemma prodZ_no1 bs : prodZ (no1 bs) = prodZ bs.
+Proof. apply prodZ_filter1. Qed.
+
+Lemma pos1_nil_no1 l k : pos1 k l = [] -> no1 l = l.
+Proof.
+  revert k. induction l as [|x l IH]; intros k H; [reflexivity|]. rewrite pos1_cons in H. unfold no1 in *. cbn [filter].
+  destruct (x =? 1); [discriminate|]. cbn [negb]. f_equal. eapply IH. exact H.
+Qed.
+
+Lemma node_sqdims o bs tl nm :
+  (forall b n, node_step o b n = node_step (OSqueezeDims (singletons_desc bs)) b n) ->
+  names_wf nm (bs ++ tl) ->
+  (node_step o (bs ++ tl) nm = Done SSelf /\ no1 bs = bs) \/
+  (exists nm', node_step o (bs ++ tl) nm = Done (SStep (no1 bs ++ tl) nm' (fun _ => OSqueezeDims (singletons_desc bs)))
+               /\ names_wf nm' (no1 bs ++ tl)).
+Proof.
+  intros Ho Hw. rewrite Ho. cbn [node_step]. rewrite singletons_desc_pos1.
+  destruct (squeeze_chain_pos1 bs [] tl (names_list nm (List.length (bs ++ tl))) [] (names_list_length nm _ Hw)) as [nl' [Hc Hl]].
+  cbn [List.length app rev] in Hc, Hl. rewrite Hc. cbn [bindo].
+  destruct (rev (pos1 0 bs)) as [|d0 ds] eqn:E.
+  - left. split; [reflexivity|]. apply (pos1_nil_no1 bs 0%nat). destruct (pos1 0 bs) as [|y ys]; [reflexivity|].
+    cbn [rev] in E. destruct (rev ys); discriminate.
+  - right. eexists. split; [reflexivity|]. destruct nm as [l|]; cbn [has_names names_wf]; [exact Hl|exact I].
 Qed.
 
 (* ================================================================== the three closure properties of K *)
@@ -848,19 +1078,20 @@ Proof.
   - apply squeeze_norm in H0; [|exact H]. destruct H0 as [i [_ ->]]. destruct (nthZ bs i =? 1); [apply nonneg_remove|]; exact Hn.
   - apply nonneg_remove. exact Hn.
   - unfold t_squeeze_all in H. injection H as <-. apply nonneg_filter. exact Hn.
-  - assumption.
+  - apply no1_nonneg. exact Hn.
+  - apply nonneg_app in Hn. apply nonneg_app. split; [apply no1_nonneg|]; tauto.
   - apply unsqueeze_norm in H. destruct H as [i [_ ->]]. apply nonneg_insert; [lia|exact Hn].
   - apply nonneg_insert; [lia|exact Hn].
-  - apply t_expand_nonneg in H; [|exact H0]. subst. exact H0.
+  - destruct (t_expand_result bs shape bs' H Hn) as [Hok _]. exact (proj1 Hok).
   - destruct H as [H _]. exact H.
-  - apply t_view_nonneg in H; [|exact H0]. destruct H as [-> _]. exact H0.
+  - destruct (view_target bs shape bs' Hn H) as [_ [Hr _]]. exact Hr.
   - assumption.
-  - apply t_view_nonneg in H; [|exact H0]. destruct H as [-> _]. exact H0.
+  - destruct (view_target bs shape bs' Hn H) as [_ [Hr _]]. exact Hr.
   - assumption.
   - subst. apply nonneg_flat. exact Hn.
   - apply nonneg_flat. exact Hn.
-  - apply unflatten_norm in H; [|exact H0]. destruct H as [i [_ [_ [_ ->]]]].
-    apply nonneg_app. split; [apply nonneg_firstn; exact Hn|]. apply nonneg_app. split; [exact H0|apply nonneg_skipn; exact Hn].
+  - destruct (unflatten_norm_any bs d sizes bs' Hn H) as [i [sz [_ [_ [Hsz [_ [-> _]]]]]]].
+    apply nonneg_app. split; [apply nonneg_firstn; exact Hn|]. apply nonneg_app. split; [exact Hsz|apply nonneg_skipn; exact Hn].
   - apply nonneg_app. split; [apply nonneg_firstn; exact Hn|]. apply nonneg_app. split; [assumption|apply nonneg_skipn; exact Hn].
   - apply repeat_norm in H; [|exact H0]. tauto.
   - assumption.
@@ -879,8 +1110,12 @@ Proof.
   - cbn [leaf_op]. rewrite H0. reflexivity.
   - apply Kleaf_n_squeeze; assumption.
   - cbn [leaf_op]. rewrite H. reflexivity.
-  - cbn [leaf_op]. destruct (bs' ++ tl) eqn:E; [congruence|]. rewrite <- E.
-    rewrite t_view_app; [reflexivity|exact H|]. apply nonneg_app. apply nonneg_app in Hn. tauto.
+  - cbn [leaf_op]. rewrite skipn_app_exact. rewrite t_view_app; [reflexivity|symmetry; apply prodZ_no1|].
+    apply nonneg_app in Hn. apply nonneg_app. split; [apply no1_nonneg|]; tauto.
+  - change (leaf_op (OSqueezeDims (singletons_desc bs)) ((bs ++ mid) ++ tl))
+      with (leaf_chain (singletons_desc bs) ((bs ++ mid) ++ tl)).
+    rewrite singletons_desc_pos1, <- app_assoc. pose proof (leaf_chain_pos1 bs [] (mid ++ tl)) as HL.
+    cbn [List.length app] in HL. rewrite HL, app_assoc. reflexivity.
   - cbn [leaf_op]. rewrite H. reflexivity.
   - apply Kleaf_n_unsqueeze; assumption.
   - cbn [leaf_op]. rewrite H. reflexivity.
@@ -896,7 +1131,7 @@ Proof.
   - apply Kleaf_n_flatten; assumption.
   - cbn [leaf_op]. rewrite H. reflexivity.
   - apply Kleaf_n_unflatten; assumption.
-  - cbn [leaf_op]. destruct reps; [destruct bs; [congruence|discriminate]|]. rewrite H. reflexivity.
+  - rewrite leaf_repeat_any, H. reflexivity.
   - apply Kleaf_n_repeat; try assumption. apply nonneg_app in Hn. tauto.
   - cbn [leaf_op]. rewrite H0. reflexivity.
   - apply Kleaf_n_repint; assumption.
@@ -993,38 +1228,30 @@ Proof.
   - (* squeeze(), root call *)
     nilr. unfold t_squeeze_all in *.
     match goal with H : Ok _ = Ok _ |- _ => injection H as <- end.
-    set (bs' := filter (fun x => negb (x =? 1)) bs) in *.
-    assert (Hbs' : bs' <> []) by (match goal with H : _ <> [] |- _ => exact H end).
-    pose proof (names_list_length nm bs Hw) as Hnl.
-    destruct (list_eqb bs' bs) eqn:E.
-    + left. apply list_eqb_eq in E. split; [|exact E]. cbn [node_step]. destruct (has_names nm).
-      * pose proof (squeeze_pairs_fst bs _ Hnl) as Hp. fold bs' in Hp.
-        destruct (squeeze_pairs bs (names_list nm (List.length bs))) as [|p0 l0] eqn:E2; [cbn in Hp; congruence|].
-        cbv iota zeta. rewrite Hp, E, list_eqb_refl. reflexivity.
-      * fold bs'. rewrite E, list_eqb_refl. reflexivity.
-    + right. cbn [node_step]. destruct (has_names nm) eqn:Eh.
-      * pose proof (squeeze_pairs_fst bs _ Hnl) as Hp. fold bs' in Hp.
-        destruct (squeeze_pairs bs (names_list nm (List.length bs))) as [|p0 l0] eqn:E2; [cbn in Hp; congruence|].
-        cbv iota zeta. rewrite Hp, E.
-        eexists. eexists. split; [reflexivity|]. split.
-        -- intros tl2 Hn2. cbn beta. cbn [app]. rewrite skipn_app_exact. apply Kn_viewstar.
-           ++ unfold bs'. symmetry. apply prodZ_filter1.
-           ++ apply nonneg_filter. exact Hn.
-           ++ destruct bs'; [congruence|discriminate].
-        -- intros ents'. eexists. split; [reflexivity|]. cbn [names_wf]. rewrite <- Hp, !map_length. reflexivity.
-      * fold bs'. rewrite E. eexists. eexists. split; [reflexivity|]. split.
-        -- intros tl2 Hn2. cbn beta. cbn [app]. rewrite skipn_app_exact. apply Kn_viewstar.
-           ++ unfold bs'. symmetry. apply prodZ_filter1.
-           ++ apply nonneg_filter. exact Hn.
-           ++ destruct bs'; [congruence|discriminate].
-        -- no_check I.
-  - (* view( *sizes ), entry call of squeeze() *)
-    assert (Hnn : nonneg (bs' ++ tl)) by (apply nonneg_app; apply nonneg_app in Hn; tauto).
-    destruct (node_view_nonneg OViewStar OView (bs' ++ tl) (bs ++ tl) nm ltac:(reflexivity) Hnn) as [[Hs He]|[Hs Hne]].
-    + left. split; [exact Hs|]. apply app_inv_tail in He. exact He.
-    + right. eexists. eexists. split; [exact Hs|]. split.
-      * intros tl2 Hn2. cbn beta. rewrite app_assoc, skipn_app_exact. apply Kn_view; [rewrite !prodZ_app; lia|exact Hnn].
-      * no_check I.
+    fold (no1 bs). pose proof (names_list_length nm bs Hw) as Hnl.
+    cbn [node_step]. fold (no1 bs). destruct (list_eqb (no1 bs) bs) eqn:E.
+    + left. split; [reflexivity|apply list_eqb_eq; exact E].
+    + right. eexists. eexists. split; [reflexivity|]. split.
+      * intros tl2 Hn2. cbn beta. apply Kn_sqchild.
+      * intros ents'. eexists. split; [reflexivity|]. destruct (has_names nm); [|exact I].
+        pose proof (squeeze_pairs_fst bs _ Hnl) as Hp. fold (no1 bs) in Hp.
+        destruct (map snd (squeeze_pairs bs (names_list nm (List.length bs)))) as [|y ys] eqn:E2; [exact I|].
+        cbn [names_wf]. rewrite <- E2, <- Hp, !map_length. reflexivity.
+  - (* the entry call of squeeze(): view on tensors, squeeze dim by dim on nested tensordicts *)
+    destruct (node_sqdims (OSqueezeAllChild (no1 bs) (List.length bs) (singletons_desc bs)) bs tl nm ltac:(reflexivity) Hw)
+      as [[Hs He]|[nm' [Hs Hnw]]].
+    + left. split; assumption.
+    + right. exists nm'. eexists. split; [exact Hs|]. split.
+      * intros tl2 Hn2. cbn beta. apply Kn_sqdims.
+      * no_check Hnw.
+  - (* squeeze dim by dim on a nested tensordict *)
+    rewrite <- !app_assoc in *.
+    destruct (node_sqdims (OSqueezeDims (singletons_desc bs)) bs (mid ++ tl) nm ltac:(reflexivity) Hw)
+      as [[Hs He]|[nm' [Hs Hnw]]].
+    + left. split; [exact Hs|]. rewrite He. reflexivity.
+    + right. exists nm'. eexists. split; [exact Hs|]. split.
+      * intros tl2 Hn2. cbn beta. pose proof (Kn_sqdims bs (mid ++ tl) tl2) as HK. exact HK.
+      * no_check Hnw.
   - (* unsqueeze, root call *)
     nilr. apply unsqueeze_norm in H. destruct H as [i [Hi ->]].
     pose proof (wrap_dim_ok _ _ _ Hi) as [Hi1 Hi2]. rewrite (node_unsqueeze_raw _ _ _ _ Hi).
@@ -1038,12 +1265,11 @@ Proof.
     + intros tl2 Hn2. cbn beta. pose proof (Kn_unsqueeze i (bs ++ tl) tl2 ltac:(rewrite app_length; lia)) as HK.
       rewrite insert_nth_app_l in HK by lia. exact HK.
     + no_check (Hnw Hw).
-  - (* expand, root call *)
-    nilr. pose proof (t_expand_nonneg _ _ _ H0 H) as ->.
-    assert (Hok : expand_ok bs shape) by (split; assumption).
-    destruct (node_expand_ok bs shape nm Hok) as [nm' [Hs Hnw]].
+  - (* expand, root call: -1 is resolved against the batch dim *)
+    nilr. destruct (t_expand_result bs shape bs' H Hn) as [Hok Hraw]. rewrite Hraw.
+    destruct (node_expand_ok bs bs' nm Hok) as [nm' [Hs Hnw]].
     right. exists nm'. eexists. split; [exact Hs|]. split.
-    + intros tl2 Hn2. cbn [app]. cbv beta zeta. rewrite (Knode_expand_child shape (bs ++ tl2) bs tl2 eq_refl). apply Kn_expand. exact Hok.
+    + intros tl2 Hn2. cbn [app]. cbv beta zeta. rewrite (Knode_expand_child bs' (bs ++ tl2) bs tl2 eq_refl). apply Kn_expand. exact Hok.
     + no_check (Hnw Hw).
   - (* expand, entry call *)
     assert (Hnt : nonneg tl) by (apply nonneg_app in Hn; tauto).
@@ -1053,9 +1279,9 @@ Proof.
     + intros tl2 Hn2. cbv beta zeta. rewrite (Knode_expand_child (bs' ++ tl) (bs ++ tl ++ tl2) (bs ++ tl) tl2 ltac:(rewrite app_assoc; reflexivity)).
       apply Kn_expand. exact Hok.
     + no_check (Hnw Hw).
-  - (* view, root call *)
-    nilr. destruct (t_view_nonneg _ _ _ H0 H) as [-> Hp].
-    destruct (node_view_nonneg OView OView shape bs nm ltac:(reflexivity) H0) as [[Hs He]|[Hs Hne]].
+  - (* view, root call: any target torch accepts, -1 included *)
+    nilr. destruct (view_target bs shape bs' Hn H) as [_ [Hnb Hp]].
+    destruct (node_view_any OView OView shape bs bs' nm ltac:(reflexivity) Hn H) as [[Hs He]|Hs].
     + left. split; [exact Hs|exact He].
     + right. eexists. eexists. split; [exact Hs|]. split.
       * intros tl2 Hn2. cbn beta. cbn [app]. rewrite skipn_app_exact. apply Kn_view; assumption.
@@ -1068,8 +1294,8 @@ Proof.
       * intros tl2 Hn2. cbn beta. rewrite app_assoc, skipn_app_exact. apply Kn_view; [rewrite !prodZ_app; lia|exact Hnn].
       * no_check I.
   - (* reshape, root call *)
-    nilr. destruct (t_view_nonneg _ _ _ H0 H) as [-> Hp].
-    destruct (node_view_nonneg OReshape OReshape shape bs nm ltac:(reflexivity) H0) as [[Hs He]|[Hs Hne]].
+    nilr. destruct (view_target bs shape bs' Hn H) as [_ [Hnb Hp]].
+    destruct (node_view_any OReshape OReshape shape bs bs' nm ltac:(reflexivity) Hn H) as [[Hs He]|Hs].
     + left. split; [exact Hs|exact He].
     + right. eexists. eexists. split; [exact Hs|]. split.
       * intros tl2 Hn2. cbn beta. cbn [app]. rewrite skipn_app_exact. apply Kn_reshape; assumption.
@@ -1089,7 +1315,7 @@ Proof.
       replace (if a <? 0 then Z.of_nat (List.length bs) + a else a) with (Z.of_nat i) by (destruct (a <? 0); lia).
       replace (if b <? 0 then Z.of_nat (List.length bs) + b else b) with (Z.of_nat j) by (destruct (b <? 0); lia).
       destruct (Z.of_nat i <? 0) eqn:E1; [lia|]. destruct (Z.of_nat j <? 0) eqn:E2; [lia|].
-      rewrite !andb_false_r. reflexivity. }
+      cbv iota. rewrite ?E1, ?E2. cbn [andb]. rewrite ?andb_false_r. reflexivity. }
     rewrite Hraw. destruct (node_flatten_nat i j bs nm H2 Hj1) as [nm' [Hs Hnw]].
     right. exists nm'. eexists. split; [exact Hs|]. split.
     + intros tl2 Hn2. cbn beta. apply Kn_flatten; assumption.
@@ -1100,17 +1326,19 @@ Proof.
     + intros tl2 Hn2. cbn beta. pose proof (Kn_flatten i j (bs ++ tl) tl2 H ltac:(rewrite app_length; lia)) as HK.
       rewrite flat_app in HK by lia. exact HK.
     + no_check (Hnw Hw).
-  - (* unflatten, root call *)
-    nilr. apply unflatten_norm in H; [|exact H0]. destruct H as [i [Hi [Hne [Hp ->]]]].
+  - (* unflatten, root call: -1 in the sizes is inferred first *)
+    nilr. destruct (unflatten_norm_any bs d sizes bs' Hn H) as [i [sz [Hi [Hne [Hsz [Hp [-> Hinf]]]]]]].
     pose proof (wrap_dim_ok _ _ _ Hi) as [Hi1 Hi2].
-    assert (Hraw : node_step (OUnflatten d sizes) bs nm = node_step (OUnflatten (Z.of_nat i) sizes) bs nm).
-    { cbn [node_step]. rewrite (correct_neg_dim_wrap _ _ _ Hi), correct_neg_dim_nat by lia. reflexivity. }
-    rewrite Hraw. destruct (node_unflatten_nat i sizes bs nm Hi1 Hne) as [nm' [Hs Hnw]].
+    assert (Hraw : node_step (OUnflatten d sizes) bs nm = node_step (OUnflatten (Z.of_nat i) sz) bs nm).
+    { cbn [node_step]. rewrite (correct_neg_dim_wrap _ _ _ Hi), correct_neg_dim_nat by lia. cbn [bindo].
+      change fixed_C02g with true. cbn [andb]. rewrite Hinf.
+      rewrite (existsb_neg_nonneg sz Hsz). cbn [bindo]. reflexivity. }
+    rewrite Hraw. destruct (node_unflatten_nat i sz bs nm Hi1 Hne Hsz) as [nm' [Hs Hnw]].
     right. exists nm'. eexists. split; [exact Hs|]. split.
     + intros tl2 Hn2. cbn beta. apply Kn_unflatten; assumption.
     + intros ents'. apply unflatten_check_ok. exact (Hnw Hw).
   - (* unflatten, entry call *)
-    destruct (node_unflatten_nat i sizes (bs ++ tl) nm ltac:(rewrite app_length; lia) H0) as [nm' [Hs Hnw]].
+    destruct (node_unflatten_nat i sizes (bs ++ tl) nm ltac:(rewrite app_length; lia) H0 H1) as [nm' [Hs Hnw]].
     rewrite unflat_app in * by lia. right. exists nm'. eexists. split; [exact Hs|]. split.
     + intros tl2 Hn2. cbn beta.
       pose proof (Kn_unflatten i sizes (bs ++ tl) tl2 ltac:(rewrite app_length; lia) H0 H1
@@ -1135,7 +1363,6 @@ Proof.
       pose proof (Kn_repeat (reps ++ repeat 1 (List.length tl)) (bs ++ tl) tl2) as HK.
       rewrite map2_mul_app, map2_mul_ones in HK by lia. apply HK.
       * rewrite !app_length, repeat_length. lia.
-      * destruct bs; [congruence|discriminate].
       * apply nonneg_app. tauto.
     + no_check I.
   - (* repeat_interleave(dim), root call *)
@@ -1173,6 +1400,7 @@ Definition torch_shape (o : sop) (s : list Z) : res (list Z) :=
   | OUnflatten d sizes => t_unflatten s d sizes
   | ORepeat reps => t_repeat s reps
   | ORepInt r d => t_repeat_interleave s r (Some d)
+  | OSqueezeDims _ | OSqueezeAllChild _ _ _ => Reject      (* not calls a user makes *)
   end.
 
 Definition norm_dim (d : Z) (n : nat) : Z := if d <? 0 then d + Z.of_nat n else d.
@@ -1183,15 +1411,16 @@ Definition in_domain (o : sop) (bs : list Z) : Prop :=
   | OPermute _ => True
   | OTranspose _ _ => bs <> []                                    (* R: rank-0 spellings *)
   | OSqueeze (Some _) => bs <> []                                 (* R: rank-0 spellings *)
-  | OSqueeze None => filter (fun x => negb (x =? 1)) bs <> []     (* D5, D5-view: all batch dims are 1 *)
+  | OSqueeze None => True
   | OUnsqueeze _ => True
-  | OExpand sh => nonneg sh                                       (* R: no -1 in expand; C02-f *)
-  | OView sh | OReshape sh => nonneg sh                           (* -1 (inferred size) is outside this theorem; C02-h *)
+  | OExpand sh => True
+  | OView sh | OReshape sh => True
   | OViewStar _ => False                                          (* not a call a user makes *)
   | OFlatten a b => bs <> [] /\ norm_dim a (List.length bs) < norm_dim b (List.length bs)   (* R: start < end *)
-  | OUnflatten _ sizes => nonneg sizes                            (* C02-g: -1 in sizes *)
-  | ORepeat reps => List.length reps = List.length bs /\ bs <> [] (* R: one count per batch dim; C02-m: rank 0 *)
+  | OUnflatten _ sizes => True
+  | ORepeat reps => List.length reps = List.length bs             (* R: one count per batch dim *)
   | ORepInt _ _ => bs <> []                                       (* rank 0 and dim=None are chains: see below *)
+  | OSqueezeDims _ | OSqueezeAllChild _ _ _ => False
   end.
 
 Lemma legal_in_K o bs bs' : in_domain o bs -> torch_shape o bs = Ok bs' -> K o bs bs' [].
@@ -1199,13 +1428,12 @@ Proof.
   intros Hd Ht. destruct o; cbn [torch_shape in_domain] in *.
   - apply Kt_permute. exact Ht.
   - apply Kt_transpose; assumption.
-  - destruct d; [apply Kt_squeeze; assumption|]. apply Kt_squeeze_all; [exact Ht|].
-    unfold t_squeeze_all in Ht. injection Ht as <-. exact Hd.
+  - destruct d; [apply Kt_squeeze; assumption|]. apply Kt_squeeze_all. exact Ht.
   - apply Kt_unsqueeze. exact Ht.
-  - apply Kt_expand; assumption.
-  - apply Kt_view; assumption.
+  - apply Kt_expand. exact Ht.
+  - apply Kt_view. exact Ht.
   - contradiction.
-  - apply Kt_reshape; assumption.
+  - apply Kt_reshape. exact Ht.
   - destruct Hd as [Hne Hlt]. unfold t_flatten in Ht. rewrite !wrap_dim_scalar_pos in Ht by (destruct bs; [congruence|cbn; lia]).
     destruct (wrap_dim a _) as [i|] eqn:Ea; [|discriminate]. destruct (wrap_dim b _) as [j|] eqn:Eb; [|discriminate].
     cbn [bind] in Ht. pose proof (wrap_dim_ok _ _ _ Ea) as [Hi1 Hi2]. pose proof (wrap_dim_ok _ _ _ Eb) as [Hj1 Hj2].
@@ -1213,9 +1441,11 @@ Proof.
     destruct bs as [|b0 bs]; [congruence|].
     destruct (j <? i)%nat eqn:E1; [apply Nat.ltb_lt in E1; lia|]. destruct (Nat.eqb i j) eqn:E2; [apply Nat.eqb_eq in E2; lia|].
     injection Ht as <-. eapply Kt_flatten; eauto.
-  - apply Kt_unflatten; assumption.
-  - destruct Hd. apply Kt_repeat; assumption.
+  - apply Kt_unflatten. exact Ht.
+  - apply Kt_repeat; assumption.
   - apply Kt_repint; assumption.
+  - contradiction.
+  - contradiction.
 Qed.
 
 Definition is_node (t : tree) : Prop := match t with Node _ _ _ => True | Leaf _ => False end.
@@ -1246,16 +1476,23 @@ Proof.
   apply app_inv_head in E1. subst tl. rewrite app_nil_r in E2. exact E2.
 Qed.
 
-(* ================================================================== the unrestricted statement is false *)
+(* ================================================================== outside the documented domain the statement is false *)
 Local Open Scope string_scope.
 Open Scope Z_scope.
+(* witness: flatten(1, 1) is a no-op for torch; tensordict documents "end dim strictly greater than start dim" *)
 Lemma full_statement_refuted :
-  exists t o bs', wf t /\ (match o with OViewStar _ => False | _ => True end) /\ torch_shape o (top_shape t) = Ok bs' /\
-                  forall t', apply t o <> Done t'.
+  exists t o bs', wf t /\ (match o with OViewStar _ | OSqueezeDims _ | OSqueezeAllChild _ _ _ => False | _ => True end)
+                  /\ torch_shape o (top_shape t) = Ok bs' /\ forall t', apply t o <> Done t'.
 Proof.
-  exists (Node [1; 1] (Some [Some "x"; Some "y"]) [("a", Leaf [1; 1; 2])]), (OSqueeze None), [].
+  exists (Node [2; 3] None [("a", Leaf [2; 3; 2])]), (OFlatten 1 1), [2; 3].
   split; [apply wfb_wf; vm_compute; reflexivity|]. split; [exact I|]. split; [reflexivity|]. intros t'. vm_compute. discriminate.
 Qed.
+
+(* the former counterexample D5 (squeeze() on a named all-singleton batch) now satisfies the property *)
+Lemma D5_repaired :
+  apply (Node [1; 1] (Some [Some "x"; Some "y"]) [("a", Leaf [1; 1; 2])]) (OSqueeze None)
+  = Done (Node [] None [("a", Leaf [2])]).
+Proof. vm_compute. reflexivity. Qed.
 
 Definition ex_tree_P : tree :=
   Node [2; 1; 3] (Some [Some "x"; None; Some "z"])
